@@ -1,5 +1,6 @@
 import ActixModel.Proofs.Pool
 import ActixModel.Proofs.ClientDecode
+import ActixModel.Model.ClientWorld
 /-
 C17 — HTTP client: complete body or error; safe reuse; bounded connections.
 
@@ -13,23 +14,8 @@ open ActixModel.Util ActixModel.Pool ActixModel.ClientDecode ActixModel.Client
 
 /-! ## Part 1 — the pool: all histories -/
 
-/-- what can happen to a pool: the client's own calls and the peers' actions on sockets the
-client holds -/
-inductive Ev where
-  | acquire (a : Nat) (now : Nat)          -- `ConnectionPool::call`; waits while no permit is free
-  | release (i : Nat) (keepAlive : Bool) (now : Nat)   -- `H1Connection::on_release` of lease `i`
-  | dropLease (i : Nat)                    -- the `H1Connection` of lease `i` is dropped
-  | peerSend (id : Nat) (bs : Bytes)       -- bytes arrive on socket `id`
-  | peerClose (id : Nat)                   -- FIN arrives on socket `id`
-
-def stepEv (cfg : Cfg) (p : Pool) : Ev → Pool
-  | .acquire a now => if canAcquire cfg p then (acquire cfg now a p).1 else p
-  | .release i ka now => release now i ka p
-  | .dropLease i => dropLease i p
-  | .peerSend id bs => touchConn id (fun c => { c with sock := c.sock ++ bs }) p
-  | .peerClose id => touchConn id (fun c => { c with peerClosed := true }) p
-
-def runEvs (cfg : Cfg) (evs : List Ev) : Pool := evs.foldl (stepEv cfg) Pool.empty
+-- `Ev`, `stepEv`, `runEvs` (the pool as a transition system: the client's own calls `acquire` /
+-- `release` / `dropLease` and the peers' `peerSend` / `peerClose`) are defined in `Model/Pool.lean`.
 
 /-- the inductive invariant: permits handed out ≤ limit, and for every authority the sockets
 open towards it (idle + held by a lease) ≤ limit -/
@@ -868,5 +854,86 @@ theorem witness_F8_repaired :
 
 set_option maxRecDepth 100000 in
 example : (exchange ⟨false, false⟩ (.part 0) [sampleOk] false).released = false := by decide
+
+
+/-! ## Part 4 — every run of the correspondence driver is a pool history
+
+`Model/ClientWorld.lean` is the environment the harness builds around the real client (request
+programs, scripted servers). Its pool is changed by `stepEv` only; so the invariants of Part 1
+hold at every point of every case the correspondence runs — for every request program, not just
+the generated ones. -/
+
+open ActixModel.ClientWorld in
+theorem world_apply_hist (cfg : Cfg) (w : World) (es : List Ev)
+    (h : w.pool = w.evs.foldl (stepEv cfg) Pool.empty) :
+    (w.apply cfg es).pool = (w.apply cfg es).evs.foldl (stepEv cfg) Pool.empty := by
+  simp only [World.apply, List.foldl_append, ← h]
+
+/-- the world's pool is the fold of its recorded events -/
+def Hist (cfg : Cfg) (w : ClientWorld.World) : Prop := w.pool = runEvs cfg w.evs
+
+open ActixModel.ClientWorld in
+theorem hist_stepReq (cfg : Cfg) (w : World) (a : Nat) (o : ReqOpts) (m : Mode) (s : Script)
+    (h : Hist cfg w) : Hist cfg (stepReq cfg w a o m s) := by
+  unfold stepReq Hist
+  simp only [World.see]
+  apply world_apply_hist
+  simp only [World.see]
+  apply world_apply_hist
+  exact h
+
+open ActixModel.ClientWorld in
+theorem hist_stepWave (cfg : Cfg) (w : World) (auths : List Nat) (h : Hist cfg w) :
+    Hist cfg (stepWave cfg w auths).1 := by
+  unfold stepWave Hist
+  simp only [World.see]
+  apply world_apply_hist
+  apply world_apply_hist
+  simp only [World.see]
+  apply world_apply_hist
+  exact h
+
+open ActixModel.ClientWorld in
+theorem hist_runWaves (cfg : Cfg) (waves : List (List Nat)) : ∀ (w : World) (n : Nat), Hist cfg w →
+    Hist cfg (runWaves cfg w n waves).1 := by
+  induction waves with
+  | nil => intro w n h; exact h
+  | cons wv wvs ih =>
+    intro w n h
+    simp only [runWaves]
+    exact ih _ _ (hist_stepWave cfg w wv h)
+
+open ActixModel.ClientWorld in
+theorem hist_stepPar (cfg : Cfg) (w : World) (auths : List Nat) (h : Hist cfg w) :
+    Hist cfg (stepPar cfg w auths) := by
+  unfold stepPar
+  exact hist_runWaves cfg _ w 0 h
+
+/-- **C17_driver_runs_are_histories** — for every request program, the pool the model driver
+ends in is `runEvs` of the events it recorded: acquire / release / peerSend / peerClose /
+dropLease in the order the harness' environment produces them. -/
+theorem C17_driver_runs_are_histories (cfg : Cfg) (ops : List ClientWorld.Op) :
+    (ClientWorld.runOps cfg ops).pool = runEvs cfg (ClientWorld.runOps cfg ops).evs := by
+  have : ∀ w, Hist cfg w → Hist cfg (ops.foldl (ClientWorld.stepOp cfg) w) := by
+    induction ops with
+    | nil => intro w h; exact h
+    | cons op rest ih =>
+      intro w h
+      simp only [List.foldl_cons]
+      apply ih
+      cases op with
+      | bad => exact h
+      | req a o m s => exact hist_stepReq cfg w a o m s h
+      | par auths => exact hist_stepPar cfg w auths h
+  exact this {} rfl
+
+/-- hence, in every case the correspondence can run: requests holding a permit ≤ limit and
+sockets per authority ≤ limit at the end of the program (and, the program being arbitrary, after
+every prefix of it) -/
+theorem C17_driver_inuse_le_limit (cfg : Cfg) (ops : List ClientWorld.Op) (a : Nat) :
+    inUse (ClientWorld.runOps cfg ops).pool ≤ cfg.limit ∧
+    openOf a (ClientWorld.runOps cfg ops).pool ≤ cfg.limit := by
+  rw [C17_driver_runs_are_histories]
+  exact ⟨C17_inuse_le_limit cfg _, C17_open_per_authority_le_limit cfg _ a⟩
 
 end ActixModel.C17
